@@ -4,6 +4,7 @@
 From Coq Require Import ZArith List.
 From Verif Require Import Lib.Params Lib.Octets Model.Outcome Model.Utils Model.Poseidon Model.Mimc7
   Proofs.HashDomainProofs.
+From Verif Require Gen.BigIntRoutines Proofs.BigIntEqHash Proofs.BigIntEqUtils.
 Local Open Scope Z_scope.
 
 Notation inF := (fun v : Z => 0 <= v < q).
@@ -54,6 +55,14 @@ Theorem C07_no_alias : forall v v', Forall inF v -> Forall inF v' -> v <> v' ->
   ~ Forall2 (fun a b => a mod q = b mod q) v v'.
 Proof. exact no_alias. Qed.
 
+(* TRANSLATOR TIE: tools/bigintgen regenerates value-level Gallina from the Go source of these
+   functions at every run (Gen/BigIntRoutines.v); it equals the hand-written model the theorems
+   above are about, for all arguments.  An edit of the Go function breaks this. *)
+Theorem C07_guards_are_the_source :
+  (forall a, BigIntRoutines.utils_CheckBigIntInField a = CheckBigIntInField Gen.CurveConsts.Q a) /\
+  (forall arr key, BigIntRoutines.mimc7_Hash BigIntEqHash.mimc7_absorb arr key = Mimc7.Hash arr key).
+Proof. exact (conj BigIntEqUtils.gen_utils_CheckBigIntInField_eq BigIntEqHash.gen_mimc7_Hash_eq). Qed.
+
 Print Assumptions C07_poseidon_accepts_iff.
 Print Assumptions C07_poseidon_never_panics.
 Print Assumptions C07_poseidon_wrappers.
@@ -61,3 +70,4 @@ Print Assumptions C07_mimc7_hash_accepts_iff.
 Print Assumptions C07_mimc7_generic_accepts_iff.
 Print Assumptions C07_mimc7_never_panics.
 Print Assumptions C07_no_alias.
+Print Assumptions C07_guards_are_the_source.
